@@ -58,6 +58,7 @@ type FuncContract struct {
 	Unfolds  []Clause // spec-function instances unfolded at function entry
 	AbstractMul bool  // encode * as an uninterpreted function in this function's obligations
 	MemConst    bool  // memories as declared constants with equations instead of macros (quantifier-heavy proofs)
+	LambdaFrame bool  // callee frames over slice element ranges as array lambdas instead of quantified frame axioms
 	Pure     bool
 	Loops    map[int]*LoopSpec
 	Sites    []SiteSpec
@@ -98,12 +99,14 @@ type SpecFile struct {
 	Funcs   []*FuncContract
 	Lemmas  []*Lemma
 	Assumes []string // raw text of every assume/trusted directive, for the evidence scan
+	Audits  []*Audit
 }
 
 var directiveKW = map[string]bool{
 	"spec": true, "func": true, "extern": true, "mode": true, "requires": true, "ensures": true, "modifies": true,
 	"nopanic": true, "allocbound": true, "unfold": true, "loop": true, "site": true, "ghost": true, "lemma": true, "assume": true,
 	"prop": true, "trusted": true, "pure": true, "end": true, "abstract": true,
+	"audit": true, "transitions": true, "init-store": true,
 }
 
 // ParseSpecFile extracts directives from the comments of a parsed Go file.
@@ -145,6 +148,7 @@ func ParseSpecFile(fset *token.FileSet, f *ast.File) (*SpecFile, error) {
 	}
 	var cur *FuncContract
 	var curLemma *Lemma
+	var curAudit *Audit
 	for _, d := range dirs {
 		kw, rest := d.text, ""
 		if i := strings.IndexAny(d.text, " \t"); i >= 0 {
@@ -170,7 +174,7 @@ func ParseSpecFile(fset *token.FileSet, f *ast.File) (*SpecFile, error) {
 				return nil, fmt.Errorf("%s:%d: %v", sf.Path, d.line, err)
 			}
 			sf.Specs = append(sf.Specs, s)
-			cur, curLemma = nil, nil
+			cur, curLemma, curAudit = nil, nil, nil
 		case "func", "extern":
 			// extern func (r *pkg.T) M(...): contract for a method of a dependency (always trusted)
 			rest = strings.TrimPrefix(rest, "func ")
@@ -208,7 +212,7 @@ func ParseSpecFile(fset *token.FileSet, f *ast.File) (*SpecFile, error) {
 				}
 			}
 			sf.Funcs = append(sf.Funcs, cur)
-			curLemma = nil
+			curLemma, curAudit = nil, nil
 		case "lemma":
 			i := strings.Index(rest, ":")
 			if i < 0 {
@@ -220,10 +224,37 @@ func ParseSpecFile(fset *token.FileSet, f *ast.File) (*SpecFile, error) {
 			}
 			curLemma = &Lemma{Name: strings.TrimSpace(rest[:i]), C: c}
 			sf.Lemmas = append(sf.Lemmas, curLemma)
-			cur = nil
+			cur, curAudit = nil, nil
 		case "end":
+			cur, curLemma, curAudit = nil, nil, nil
+		case "audit":
+			// audit atomic <Type>.<field>
+			f := strings.Fields(rest)
+			if len(f) != 2 || f[0] != "atomic" || strings.Count(f[1], ".") != 1 {
+				return nil, fmt.Errorf("%s:%d: bad audit directive %q", sf.Path, d.line, rest)
+			}
+			tf := strings.SplitN(f[1], ".", 2)
+			curAudit = &Audit{Kind: "atomic", TypeName: tf[0], Field: tf[1], Line: d.line, File: sf.Path, Text: rest}
+			sf.Audits = append(sf.Audits, curAudit)
 			cur, curLemma = nil, nil
 		default:
+			if curAudit != nil {
+				switch kw {
+				case "prop":
+					curAudit.Props = strings.Fields(rest)
+				case "transitions":
+					ts, err := parseTransitions(rest)
+					if err != nil {
+						return nil, fmt.Errorf("%s:%d: %v", sf.Path, d.line, err)
+					}
+					curAudit.Trans = append(curAudit.Trans, ts...)
+				case "init-store":
+					curAudit.InitStores = append(curAudit.InitStores, splitTop(rest)...)
+				default:
+					return nil, fmt.Errorf("%s:%d: directive %q not allowed in audit", sf.Path, d.line, kw)
+				}
+				continue
+			}
 			if curLemma != nil {
 				switch kw {
 				case "mode":
@@ -292,6 +323,8 @@ func ParseSpecFile(fset *token.FileSet, f *ast.File) (*SpecFile, error) {
 					cur.AbstractMul = true
 				} else if rest == "memconst" {
 					cur.MemConst = true
+				} else if rest == "lambdaframe" {
+					cur.LambdaFrame = true
 				} else {
 					return nil, fmt.Errorf("%s:%d: unknown abstraction %q", sf.Path, d.line, rest)
 				}
